@@ -1,6 +1,84 @@
-(* C16 -- non-vacuity examples. *)
-From Coq Require Import List Arith ZArith.
+(* C16 -- non-vacuity: concrete non-trivial inputs meet the hypotheses of the theorems
+   (R := Z), and the two sides of each statement evaluate to the same non-zero numbers. *)
+From Coq Require Import List Arith ZArith Lia.
 From Verif.C16 Require Import Model Proofs Cases.
 Import ListNotations.
-Example ex_diag : diagonal_matvec Z Z.mul (zvec [2;3]%Z) (zvec [5;7]%Z) 1 = 21%Z.
+Open Scope Z_scope.
+
+(* apply_tprod_spec: a dense 2x3 operand, a None placeholder, an abstract 2x2 operand and one
+   trailing axis of size 2 *)
+Definition ex_ops : list (option (operand Z)) :=
+  [Some (D 2 3 [1;2;3;4;5;6]); None; Some (A 2 2 [1;0;2;1])].
+Definition ex_X : arr Z := zarr [3;2;2;2]%nat [1;2;3;4;5;6;7;8;9;10;11;12;13;14;15;16;17;18;19;20;21;22;23;24].
+
+Example ex_tprod_shape : ashape Z ex_X = ([3;2;2] ++ [2])%nat.
+Proof. reflexivity. Qed.
+Example ex_tprod_conf : conf Z ex_ops [3;2;2]%nat.
+Proof. simpl. auto. Qed.
+Example ex_tprod_inr : inr [1;1;1]%nat (out_shape Z ex_ops [3;2;2]%nat) /\ inr [1]%nat [2]%nat.
+Proof. split; repeat constructor. Qed.
+Example ex_tprod_value :
+  aat Z (apply_tprod Z zO Z.add Z.mul ex_ops ex_X) ([1;1;1] ++ [1])%nat = 708 /\
+  tprod_spec Z zO Z.add Z.mul ex_ops (aat Z ex_X) ([1;1;1] ++ [1])%nat = 708.
+Proof. vm_compute. auto. Qed.
+
+(* kron_dense_spec_partial *)
+Example ex_kron_core_shape :
+  ashape Z (zarr [3;2;2]%nat [1;2;3;4;5;6;7;8;9;10;11;12]) =
+  map (fun o => mcols Z (omat Z o)) [D 2 3 [1;2;3;4;5;6]; A 2 2 [1;0;2;1]] ++ [2%nat].
+Proof. reflexivity. Qed.
+
+(* modek_sparse_spec *)
+Example ex_modek_inr : inr [1;1]%nat (remove_at 1 (ashape Z (zarr [2;3;2]%nat [1;2;3;4;5;6;7;8;9;10;11;12]))).
+Proof. repeat constructor. Qed.
+Example ex_modek_value :
+  aat Z (modek_tensordot_sparse Z zO Z.add Z.mul (zmat 2 3 [1;2;3;4;5;6]) 1 (zarr [2;3;2]%nat [1;2;3;4;5;6;7;8;9;10;11;12])) [1;1;1]%nat = 154.
+Proof. vm_compute. reflexivity. Qed.
+
+(* block_spec / blockdiag_spec: a 2x3 and a 1x1 block *)
+Definition ex_blocks := block_diagonal Z [zmat 2 3 [1;2;3;4;5;6]; zmat 1 1 [7]].
+Example ex_block_bound : forall b, In b ex_blocks -> (pci Z b + mcols Z (pb Z b) <= 4)%nat.
+Proof. intros b [<-|[<-|[]]]; simpl; lia. Qed.
+Example ex_block_value :
+  map (base_block_matvec Z zO Z.add Z.mul ex_blocks (zvec [1;1;1;2])) [0;1;2]%nat = [6; 15; 14].
+Proof. vm_compute. reflexivity. Qed.
+
+(* BlockOperator layout with a null block (executed, not a theorem) *)
+Example ex_grid_value :
+  map (base_block_matvec Z zO Z.add Z.mul
+         (block_operator Z [[Some (zmat 1 2 [1;2]); None]; [Some (zmat 2 2 [1;0;0;1]); Some (zmat 2 1 [5;6])]] [1;2]%nat [2;1]%nat)
+         (zvec [1;2;3])) [0;1;2]%nat = [5; 16; 20].
+Proof. vm_compute. reflexivity. Qed.
+
+(* diag_spec / identity_spec *)
+Example ex_diag : diagonal_matvec Z Z.mul (zvec [2;3]) (zvec [5;7]) 1%nat = 21 /\ (1 < 2)%nat.
+Proof. split. vm_compute. reflexivity. lia. Qed.
+
+(* subspace_spec / subspace_transpose: two overlapping prolongations, non-symmetric B *)
+Definition ex_PB := [(zmat 3 2 [1;0;0;1;0;0], zmat 2 2 [1;2;3;4]); (zmat 3 2 [0;0;1;0;1;1], zmat 2 2 [0;1;-1;2])].
+Example ex_subspace_rows : forall pb, In pb ex_PB -> mrows Z (fst pb) = 3%nat.
+Proof. intros pb [<-|[<-|[]]]; reflexivity. Qed.
+Example ex_subspace_square : forall pb, In pb ex_PB ->
+  mcols Z (snd pb) = mcols Z (fst pb) /\ mrows Z (snd pb) = mcols Z (fst pb).
+Proof. intros pb [<-|[<-|[]]]; split; reflexivity. Qed.
+Example ex_subspace_value :
+  map (subspace_matvec Z zO Z.add Z.mul false ex_PB (zvec [1;2;3])) [0;1;2]%nat = [5; 14; 4] /\
+  map (subspace_matvec Z zO Z.add Z.mul true ex_PB (zvec [1;2;3])) [0;1;2]%nat = [7; 7; 8].
+Proof. vm_compute. auto. Qed.
+
+(* rowslice_spec / rowsubset_spec: a CSR structure with an unsorted row and a duplicate entry *)
+Definition ex_csr : csr Z := mkcsr Z 3 3 [0;2;2;5]%nat [2;0;1;1;0]%nat [5;1;2;3;4].
+Example ex_csr_wf : csr_wf Z ex_csr.
+Proof. intros q Hq. simpl in Hq. do 5 (destruct q as [|q]; [simpl; lia|]). simpl in Hq. lia. Qed.
+Example ex_csr_ptr : forall r, (r < 3)%nat -> (nth (S r) (c_indptr Z ex_csr) 0 <= length (c_indices Z ex_csr))%nat.
+Proof. intros r Hr. do 3 (destruct r as [|r]; [simpl; lia|]). lia. Qed.
+Example ex_csr_value :
+  map (csr_rowslice Z zO Z.add Z.mul ex_csr 1 3 (zvec [1;10;100])) [0;1]%nat = [0; 54] /\
+  map (csr_rowsubset Z zO Z.add Z.mul ex_csr [2;0;2]%nat (zvec [1;10;100])) [0;1;2]%nat = [54; 501; 54].
+Proof. vm_compute. auto. Qed.
+
+(* the column-major Kronecker routine on a 2x2 (x) 2x2 example (executed, not a theorem) *)
+Example ex_linops_value :
+  to_list (apply_kronecker_linops Z zO Z.add Z.mul [A 2 2 [1;2;3;4]; A 2 2 [1;0;2;1]] (zarr [4;2]%nat [1;2;3;4;5;6;7;8]))
+  = [11; 14; 39; 48; 23; 30; 83; 104].
 Proof. vm_compute. reflexivity. Qed.
